@@ -5,23 +5,41 @@
 package sm
 
 import (
+	"context"
+
 	"github.com/fiorix/go-diameter/v4/diam"
 	"github.com/fiorix/go-diameter/v4/diam/sm/smparser"
 	"github.com/fiorix/go-diameter/v4/diam/sm/smpeer"
 )
 
 // handleCEA handles Capabilities-Exchange-Answer messages.
+//
+// The outcome of the first CEA is reported on errc, which has room for it:
+// the handler never waits for handshake(), which may have given up already.
 func handleCEA(sm *StateMachine, errc chan error) diam.HandlerFunc {
+	report := func(err error) {
+		select {
+		case errc <- err:
+		default:
+		}
+	}
 	return func(c diam.Conn, m *diam.Message) {
 		if _, ok := smpeer.FromContext(c.Context()); ok {
-			// The handshake is complete: errc is closed and nobody
-			// reads it anymore. Ignore further or duplicate CEAs,
-			// like handleCER ignores retransmitted CERs.
+			// The handshake is complete and nobody reads errc
+			// anymore. Ignore further or duplicate CEAs, like
+			// handleCER ignores retransmitted CERs.
+			return
+		}
+		if refused, _ := c.Context().Value(refusedKey{}).(bool); refused {
+			// The peer refused the handshake on this connection and
+			// it is being closed: a success CEA that follows the
+			// refusal does not revive it.
 			return
 		}
 		cea := new(smparser.CEA)
 		if err := cea.Parse(m, smparser.Client); err != nil {
-			errc <- err
+			c.SetContext(context.WithValue(c.Context(), refusedKey{}, true))
+			report(err)
 			return
 		}
 		meta := smpeer.FromCEA(cea)
@@ -32,6 +50,9 @@ func handleCEA(sm *StateMachine, errc chan error) diam.HandlerFunc {
 		default:
 		}
 		// Done receiving and validating this CEA.
-		close(errc)
+		report(nil)
 	}
 }
+
+// refusedKey marks, in its context, a connection whose CEA was a refusal.
+type refusedKey struct{}
